@@ -138,7 +138,18 @@ func reflectValueWord(st *State, v Value) (types.Type, Value) {
 		}
 		return t, st.load(pp, t)
 	}
+	if b, ok := p.(BoxV); ok {
+		return t, b.V
+	}
 	return t, p
+}
+
+// wrapReflect builds the reflect.Value holding v of type t (not addressable).
+func wrapReflect(t types.Type, v Value) Value {
+	if pointerShaped(t) {
+		return mkReflectValue(t, v)
+	}
+	return StructV{TypeV{T: t}, BoxV{V: v}, Const(64, reflectKind(t))}
 }
 
 func init() {
@@ -306,5 +317,189 @@ func init() {
 			panic(cutErr{"reflect.Value.Interface of non-pointer kind"})
 		}
 		return ret(IfaceV{T: t, D: p})
+	})
+}
+
+// ---- scalar values and maps (what the map coders and convert.go need) ----
+
+func reflectMapObj(w *Worker, st *State, v Value) (*types.Map, *Obj) {
+	t, m := reflectValueWord(st, v)
+	mt, ok := t.Underlying().(*types.Map)
+	if !ok {
+		panic(goPanic{msg: "reflect: map operation on " + t.String()})
+	}
+	return mt, w.mapObj(st, m)
+}
+
+func init() {
+	regIntrinsic("reflect.ValueOf", func(w *Worker, st *State, f *Frame, x *ssa.Call, fv FuncV, a []Value) (Value, bool) {
+		chkOpaque(a[0])
+		iv := a[0].(IfaceV)
+		if iv.T == nil {
+			return ret(zeroValue(x.Type()))
+		}
+		return ret(wrapReflect(iv.T, iv.D))
+	})
+	regIntrinsic("(reflect.Value).Convert", func(w *Worker, st *State, f *Frame, x *ssa.Call, fv FuncV, a []Value) (Value, bool) {
+		t, v := reflectValueWord(st, a[0])
+		to := typeOfRecv(a[1])
+		if !types.Identical(t.Underlying(), to.Underlying()) {
+			panic(cutErr{"reflect.Value.Convert between " + t.String() + " and " + to.String()})
+		}
+		return ret(wrapReflect(to, v))
+	})
+	num := func(signed bool) intrinsic {
+		return func(w *Worker, st *State, f *Frame, x *ssa.Call, fv FuncV, a []Value) (Value, bool) {
+			t, v := reflectValueWord(st, a[0])
+			tm, ok := v.(*Term)
+			b, isB := t.Underlying().(*types.Basic)
+			if !ok || !isB || b.Info()&types.IsInteger == 0 {
+				panic(cutErr{"reflect.Value.Int/Uint of " + t.String()})
+			}
+			if (b.Info()&types.IsUnsigned == 0) != signed {
+				panic(goPanic{msg: "reflect: call of reflect.Value.Int/Uint on " + t.String()})
+			}
+			if tm.W == 64 {
+				return ret(tm)
+			}
+			if signed {
+				return ret(SExt(tm, 64))
+			}
+			return ret(ZExt(tm, 64))
+		}
+	}
+	regIntrinsic("(reflect.Value).Int", num(true))
+	regIntrinsic("(reflect.Value).Uint", num(false))
+	regIntrinsic("(reflect.Value).Bool", func(w *Worker, st *State, f *Frame, x *ssa.Call, fv FuncV, a []Value) (Value, bool) {
+		_, v := reflectValueWord(st, a[0])
+		tm, ok := v.(*Term)
+		if !ok {
+			panic(cutErr{"reflect.Value.Bool"})
+		}
+		return ret(tm)
+	})
+	regIntrinsic("(reflect.Value).String", func(w *Worker, st *State, f *Frame, x *ssa.Call, fv FuncV, a []Value) (Value, bool) {
+		_, v := reflectValueWord(st, a[0])
+		sv, ok := v.(StrV)
+		if !ok {
+			panic(cutErr{"reflect.Value.String of non-string"})
+		}
+		return ret(sv)
+	})
+	regIntrinsic("(reflect.Value).Bytes", func(w *Worker, st *State, f *Frame, x *ssa.Call, fv FuncV, a []Value) (Value, bool) {
+		_, v := reflectValueWord(st, a[0])
+		sv, ok := v.(SliceV)
+		if !ok {
+			panic(cutErr{"reflect.Value.Bytes of non-slice"})
+		}
+		return ret(sv)
+	})
+	regIntrinsic("(reflect.Value).Len", func(w *Worker, st *State, f *Frame, x *ssa.Call, fv FuncV, a []Value) (Value, bool) {
+		t, v := reflectValueWord(st, a[0])
+		switch t.Underlying().(type) {
+		case *types.Map:
+			o := w.mapObj(st, v)
+			if o == nil {
+				return ret(Const(64, 0))
+			}
+			return ret(Const(64, uint64(len(o.Map))))
+		case *types.Slice:
+			return ret(Const(64, uint64(v.(SliceV).Len)))
+		case *types.Basic:
+			if sv, ok := v.(StrV); ok {
+				return ret(Const(64, uint64(sv.Len)))
+			}
+		}
+		panic(cutErr{"reflect.Value.Len of " + t.String()})
+	})
+	regIntrinsic("reflect.MakeMap", func(w *Worker, st *State, f *Frame, x *ssa.Call, fv FuncV, a []Value) (Value, bool) {
+		t := typeOfRecv(a[0])
+		mt, ok := t.Underlying().(*types.Map)
+		if !ok {
+			panic(goPanic{msg: "reflect.MakeMap of non-map type"})
+		}
+		o := st.heap.alloc(-1, nil, "reflect.MakeMap")
+		o.Kind = ObjMap
+		o.MapT = mt
+		return ret(mkReflectValue(t, Ptr{Obj: o.ID}))
+	})
+	regIntrinsic("(reflect.Value).SetMapIndex", func(w *Worker, st *State, f *Frame, x *ssa.Call, fv FuncV, a []Value) (Value, bool) {
+		t, m := reflectValueWord(st, a[0])
+		mt, ok := t.Underlying().(*types.Map)
+		if !ok {
+			panic(goPanic{msg: "reflect: SetMapIndex on " + t.String()})
+		}
+		kt, k := reflectValueWord(st, a[1])
+		vt, v := reflectValueWord(st, a[2])
+		if !sameType(kt, mt.Key()) || !sameType(vt, mt.Elem()) {
+			panic(goPanic{msg: "reflect.Value.SetMapIndex: value of type " + kt.String() + "/" + vt.String() + " is not assignable to " + t.String()})
+		}
+		w.mapUpdate(st, m, k, v)
+		return nil, true
+	})
+	regIntrinsic("(reflect.Value).MapIndex", func(w *Worker, st *State, f *Frame, x *ssa.Call, fv FuncV, a []Value) (Value, bool) {
+		mt, o := reflectMapObj(w, st, a[0])
+		_, k := reflectValueWord(st, a[1])
+		i := w.mapFind(st, o, k)
+		if i < 0 {
+			return ret(zeroValue(x.Type()))
+		}
+		return ret(wrapReflect(mt.Elem(), o.Map[i].V))
+	})
+	regIntrinsic("(reflect.Value).MapKeys", func(w *Worker, st *State, f *Frame, x *ssa.Call, fv FuncV, a []Value) (Value, bool) {
+		mt, o := reflectMapObj(w, st, a[0])
+		n := 0
+		if o != nil {
+			n = len(o.Map)
+		}
+		if n == 0 {
+			return ret(SliceV{})
+		}
+		et := x.Type().Underlying().(*types.Slice).Elem()
+		es := sizeof(et)
+		so := st.heap.alloc(int64(n)*es, nil, "reflect.MapKeys")
+		for i := 0; i < n; i++ {
+			st.storeAt(so.ID, int64(i)*es, et, wrapReflect(mt.Key(), o.Map[i].K))
+		}
+		return ret(SliceV{P: Ptr{Obj: so.ID}, Len: int64(n), Cap: int64(n)})
+	})
+	// *reflect.MapIter is modelled as a two-cell object: the map pointer and the position.
+	regIntrinsic("(reflect.Value).MapRange", func(w *Worker, st *State, f *Frame, x *ssa.Call, fv FuncV, a []Value) (Value, bool) {
+		t, m := reflectValueWord(st, a[0])
+		if _, ok := t.Underlying().(*types.Map); !ok {
+			panic(goPanic{msg: "reflect: MapRange on " + t.String()})
+		}
+		it := st.heap.alloc(24, nil, "reflect.MapIter")
+		mo := st.heap.mut(it.ID)
+		mo.Cells[0] = Cell{W: 8, V: m}
+		mo.Cells[8] = Cell{W: 8, V: Const(64, ^uint64(0))}
+		mo.Cells[16] = Cell{W: 8, V: TypeV{T: t}}
+		return ret(Ptr{Obj: it.ID})
+	})
+	iterParts := func(w *Worker, st *State, p Value) (*types.Map, *Obj, int) {
+		it := st.heap.get(p.(Ptr).Obj)
+		mt := it.Cells[16].V.(TypeV).T.Underlying().(*types.Map)
+		o := w.mapObj(st, it.Cells[0].V)
+		return mt, o, int(int64(it.Cells[8].V.(*Term).C))
+	}
+	regIntrinsic("(*reflect.MapIter).Next", func(w *Worker, st *State, f *Frame, x *ssa.Call, fv FuncV, a []Value) (Value, bool) {
+		_, o, i := iterParts(w, st, a[0])
+		i++
+		st.heap.mut(a[0].(Ptr).Obj).Cells[8] = Cell{W: 8, V: Const(64, uint64(int64(i)))}
+		return ret(Bool(o != nil && i < len(o.Map)))
+	})
+	regIntrinsic("(*reflect.MapIter).Key", func(w *Worker, st *State, f *Frame, x *ssa.Call, fv FuncV, a []Value) (Value, bool) {
+		mt, o, i := iterParts(w, st, a[0])
+		if o == nil || i < 0 || i >= len(o.Map) {
+			panic(goPanic{msg: "MapIter.Key called before Next"})
+		}
+		return ret(wrapReflect(mt.Key(), o.Map[i].K))
+	})
+	regIntrinsic("(*reflect.MapIter).Value", func(w *Worker, st *State, f *Frame, x *ssa.Call, fv FuncV, a []Value) (Value, bool) {
+		mt, o, i := iterParts(w, st, a[0])
+		if o == nil || i < 0 || i >= len(o.Map) {
+			panic(goPanic{msg: "MapIter.Value called before Next"})
+		}
+		return ret(wrapReflect(mt.Elem(), o.Map[i].V))
 	})
 }
